@@ -248,19 +248,79 @@ func SipHash24(key [16]byte, msg []byte) uint64 {
 // Drbg is the deployed length-mask generator: block n is SipHash-2-4, keyed
 // with the first 16 seed bytes, of the concatenation of the 8-byte IV and all
 // previous blocks (the hash state keeps running), output little-endian.
+// The state is kept incrementally (absorbing one 8-byte word per block);
+// DrbgSlow recomputes every block from scratch with the one-shot function and
+// is used to cross-check this one.
 type Drbg struct {
+	v0, v1, v2, v3 uint64
+	n              int // bytes absorbed
+	ofb            [8]byte
+}
+
+func sipRound(v0, v1, v2, v3 uint64) (uint64, uint64, uint64, uint64) {
+	v0 += v1
+	v1 = rotl64(v1, 13)
+	v1 ^= v0
+	v0 = rotl64(v0, 32)
+	v2 += v3
+	v3 = rotl64(v3, 16)
+	v3 ^= v2
+	v0 += v3
+	v3 = rotl64(v3, 21)
+	v3 ^= v0
+	v2 += v1
+	v1 = rotl64(v1, 17)
+	v1 ^= v2
+	v2 = rotl64(v2, 32)
+	return v0, v1, v2, v3
+}
+
+func NewDrbg(seed []byte) *Drbg {
+	k0 := binary.LittleEndian.Uint64(seed[0:8])
+	k1 := binary.LittleEndian.Uint64(seed[8:16])
+	d := &Drbg{v0: k0 ^ 0x736f6d6570736575, v1: k1 ^ 0x646f72616e646f6d, v2: k0 ^ 0x6c7967656e657261, v3: k1 ^ 0x7465646279746573}
+	copy(d.ofb[:], seed[16:24])
+	return d
+}
+
+func (d *Drbg) NextBlock() [8]byte {
+	// absorb the previous output (or the IV)
+	m := binary.LittleEndian.Uint64(d.ofb[:])
+	v0, v1, v2, v3 := d.v0, d.v1, d.v2, d.v3
+	v3 ^= m
+	v0, v1, v2, v3 = sipRound(v0, v1, v2, v3)
+	v0, v1, v2, v3 = sipRound(v0, v1, v2, v3)
+	v0 ^= m
+	d.v0, d.v1, d.v2, d.v3 = v0, v1, v2, v3
+	d.n += 8
+	// finalise a copy: the last word holds only the length byte
+	m = uint64(byte(d.n)) << 56
+	v3 ^= m
+	v0, v1, v2, v3 = sipRound(v0, v1, v2, v3)
+	v0, v1, v2, v3 = sipRound(v0, v1, v2, v3)
+	v0 ^= m
+	v2 ^= 0xff
+	for i := 0; i < 4; i++ {
+		v0, v1, v2, v3 = sipRound(v0, v1, v2, v3)
+	}
+	binary.LittleEndian.PutUint64(d.ofb[:], v0^v1^v2^v3)
+	return d.ofb
+}
+
+// DrbgSlow is the same generator written with the one-shot hash.
+type DrbgSlow struct {
 	key  [16]byte
 	hist []byte
 }
 
-func NewDrbg(seed []byte) *Drbg {
-	d := &Drbg{}
+func NewDrbgSlow(seed []byte) *DrbgSlow {
+	d := &DrbgSlow{}
 	copy(d.key[:], seed[:16])
 	d.hist = append(d.hist, seed[16:24]...)
 	return d
 }
 
-func (d *Drbg) NextBlock() [8]byte {
+func (d *DrbgSlow) NextBlock() [8]byte {
 	var out [8]byte
 	binary.LittleEndian.PutUint64(out[:], SipHash24(d.key, d.hist))
 	d.hist = append(d.hist, out[:]...)
